@@ -195,6 +195,19 @@ CHECKS = {
     note="Integer-valued data. base.gemv/gemm/syrk/symv/axpy with sparse operands, V assignment and size change are not in this check (C17/C19 "
          "drivers cover the products). Calibrated clauses are marked in the spec.",
     technique="TLA+ reference model over dense images; TLC trace validation (CCSValid + dense image at every step) of random programs run in crash-isolated children"),
+ "C17": dict(
+    category="model_checking",
+    text="Blas.tla specifies all 34 routines of cvxopt.blas from their docstrings: defaults of n/m/k/ld*, accept/reject (typecodes, flags, increments, "
+         "offsets, leading dimensions, footprint of every vector / general / band / symmetric / Hermitian / triangular view against the buffer length), "
+         "early returns, and the reference result on the addressed views (Gaussian integers, conjugation, unit-diagonal triangular solves), everything "
+         "else unchanged. Seeded random calls of every routine (dimensions 0..3 and omitted forms, increments +-1..3 and 0, offsets, leading dimensions "
+         "around the minimum, all flags, real/complex scalars, conflicting typecodes, buffers at / beyond / one short of the footprint) run on real "
+         "matrices in crash-isolated children; TLC evaluates Run(call); the exception decision, the returned number and EVERY cell of EVERY argument "
+         "(slack cells are canaries, inputs must be unchanged) are compared.",
+    design_ref="DESIGN.md section 4 C17",
+    note="Exact lattice data only (rounding on general reals is the BLAS library's, outside the repository). Calls that address nothing but carry another "
+         "invalid argument are 'either' (only 'unchanged' is required). Values near 2^31 belong to C19.",
+    technique="TLA+ reference semantics and accept/reject tables evaluated by TLC on generated calls; differential replay into cvxopt.blas"),
  "C20": dict(
     category="model_checking",
     text="BufferProtocol.tla: names bound to matrix objects, objects owning storage, views (exported buffers) that keep their source alive; actions New / "
